@@ -47,8 +47,6 @@ structure Task where
   promAt : Nat := 0             -- the scheduled time it saw
   eaUser : Bool := false        -- executeAt holds a time given to Schedule
   schedHist : List Nat := []    -- all non-zero times given to Schedule
-  qkey : Nat := 0               -- stamp of the submission that put the task into the normal queue
-  pkey : Int := 0               -- prioritized queue: +stamp (QueuePrioritized) or -stamp (StartASAP)
   byQh : Bool := false          -- current execution was started by the queue handler
   tmo : Bool := false           -- the slot watcher of the current execution gave up (maxExecutionWait)
 deriving Repr
@@ -71,6 +69,8 @@ deriving DecidableEq, Repr
 structure St where
   now : Nat := 0
   clock : Nat := 0              -- history: submission stamp counter
+  qkey : Nat → Nat := fun _ => 0  -- history: stamp of the submission that put the task into the normal queue
+  pkey : Nat → Int := fun _ => 0  -- history: prioritized queue: +stamp (QueuePrioritized) or -stamp (StartASAP)
   tasks : Nat → Task := fun _ => {}
   queue : List Nat := []
   prio : List Nat := []
@@ -125,109 +125,139 @@ def insertSched (ea : Nat → Nat) (t tm : Nat) : List Nat → List Nat
 /-- `isActive` for a task of an online module. -/
 def Task.active (k : Task) : Bool := !k.canceled
 
-/-- `addToSchedule(overtime)` for task `t` whose record (with the new `executeAt`) is `k`. -/
-def addToSchedule (s : St) (t : Nat) (k : Task) (ot : Bool) : St :=
-  if !k.active then setTask s t k else
-  let k' := { k with overtime := k.overtime || ot, inS := true }
-  let ea := fun x => (s.tasks x).executeAt
-  { setTask s t k' with sched := insertSched ea t k.executeAt (s.sched.erase t) }
+/-- New content of the schedule list after `addToSchedule` of task `t` with time `tm`. -/
+def schedWith (s : St) (t tm : Nat) : List Nat :=
+  insertSched (fun x => (s.tasks x).executeAt) t tm (s.sched.erase t)
 
-/-- `prepForQueueing`: `none` if the task is not active. -/
-def prep (s : St) (t : Nat) : Option St :=
-  let k := s.tasks t
-  if !k.active then none else
+/-- `prepForQueueing` of an active task, record part: arms the max-delay entry if `maxDelay != 0`. -/
+def Task.prepped (k : Task) (now : Nat) : Task :=
   if k.maxDelay != 0 then
-    some (addToSchedule s t { k with executeAt := s.now + k.maxDelay, eaUser := false } true)
-  else some s
+    { k with executeAt := now + k.maxDelay, eaUser := false, overtime := true, inS := true }
+  else k
 
-/-- `removeFromQueues`. -/
-def removeFromQueues (s : St) (t : Nat) : St :=
+/-- `prepForQueueing` of an active task, schedule part. -/
+def prepSched (s : St) (t : Nat) : List Nat :=
   let k := s.tasks t
-  let s1 := if k.inQ then { s with queue := s.queue.erase t } else s
-  let s2 := if k.inP then { s1 with prio := s1.prio.erase t } else s1
-  let s3 := if k.inS then { s2 with sched := s2.sched.erase t } else s2
-  setTask s3 t { k with inQ := false, inP := false, inS := false, overtime := if k.inS then false else k.overtime }
+  if k.maxDelay != 0 then schedWith s t (s.now + k.maxDelay) else s.sched
+
+/-- Record after `removeFromQueues`. -/
+def Task.removed (k : Task) : Task :=
+  { k with inQ := false, inP := false, inS := false, overtime := if k.inS then false else k.overtime }
+
+/-- `removeFromQueues`, list parts. -/
+def rmQueue (s : St) (t : Nat) : List Nat := if (s.tasks t).inQ then s.queue.erase t else s.queue
+def rmPrio (s : St) (t : Nat) : List Nat := if (s.tasks t).inP then s.prio.erase t else s.prio
+def rmSched (s : St) (t : Nat) : List Nat := if (s.tasks t).inS then s.sched.erase t else s.sched
 
 /-- History bookkeeping of a submission from outside. -/
 def Task.submitted (k : Task) : Task :=
   { k with subs := k.subs + 1, userSub := true, owed := true, dropped := false }
 
+/-- `Queue`. -/
 def doQueue (s : St) (t : Nat) : St :=
-  match prep s t with
-  | none => s
-  | some s1 =>
-    let k := (s1.tasks t).submitted
-    if k.inQ then { setTask s1 t k with clock := s1.clock + 1 }
-    else { setTask s1 t { k with inQ := true, qkey := s1.clock + 1 } with
-           queue := s1.queue ++ [t], clock := s1.clock + 1 }
+  let k := s.tasks t
+  if !k.active then s else
+  let k1 := (k.prepped s.now).submitted
+  if k1.inQ then
+    { setTask s t k1 with sched := prepSched s t, clock := s.clock + 1 }
+  else
+    { setTask s t { k1 with inQ := true } with
+      sched := prepSched s t, queue := s.queue ++ [t], clock := s.clock + 1,
+      qkey := fun x => if x = t then s.clock + 1 else s.qkey x }
 
+/-- `QueuePrioritized`. -/
 def doQueueP (s : St) (t : Nat) : St :=
-  match prep s t with
-  | none => s
-  | some s1 =>
-    let k := (s1.tasks t).submitted
-    if k.inP then { setTask s1 t k with clock := s1.clock + 1 }
-    else { setTask s1 t { k with inP := true, pkey := ((s1.clock + 1 : Nat) : Int) } with
-           prio := s1.prio ++ [t], clock := s1.clock + 1 }
+  let k := s.tasks t
+  if !k.active then s else
+  let k1 := (k.prepped s.now).submitted
+  if k1.inP then
+    { setTask s t k1 with sched := prepSched s t, clock := s.clock + 1 }
+  else
+    { setTask s t { k1 with inP := true } with
+      sched := prepSched s t, prio := s.prio ++ [t], clock := s.clock + 1,
+      pkey := fun x => if x = t then ((s.clock + 1 : Nat) : Int) else s.pkey x }
 
 /-- `StartASAP`; `bySh`: called by the schedule handler for a task whose scheduled time has come. -/
 def doAsap (s : St) (t : Nat) (bySh : Bool) : St :=
-  let s0 := if bySh then { s with sh := .idle } else s
-  match prep s0 t with
-  | none => s0
-  | some s1 =>
-    let k := if bySh then s1.tasks t else (s1.tasks t).submitted
-    if !k.inP then
-      { setTask s1 t { k with inP := true, pkey := - ((s1.clock + 1 : Nat) : Int) } with
-        prio := t :: s1.prio, clock := s1.clock + 1 }
-    else if s1.prio.contains t then
-      { setTask s1 t { k with pkey := - ((s1.clock + 1 : Nat) : Int) } with
-        prio := t :: s1.prio.erase t, clock := s1.clock + 1 }
-    else { setTask s1 t k with clock := s1.clock + 1 }
+  let sh' := if bySh then SH.idle else s.sh
+  let k := s.tasks t
+  if !k.active then { s with sh := sh' } else
+  let k1 := if bySh then k.prepped s.now else (k.prepped s.now).submitted
+  if !k1.inP then
+    { setTask s t { k1 with inP := true } with
+      sched := prepSched s t, prio := t :: s.prio, clock := s.clock + 1, sh := sh',
+      pkey := fun x => if x = t then - ((s.clock + 1 : Nat) : Int) else s.pkey x }
+  else if s.prio.contains t then
+    { setTask s t k1 with
+      sched := prepSched s t, prio := t :: s.prio.erase t, clock := s.clock + 1, sh := sh',
+      pkey := fun x => if x = t then - ((s.clock + 1 : Nat) : Int) else s.pkey x }
+  else
+    { setTask s t k1 with sched := prepSched s t, clock := s.clock + 1, sh := sh' }
 
+/-- `Schedule`. -/
 def doSchedule (s : St) (t tm : Nat) : St :=
   let k := s.tasks t
   if tm = 0 then
     -- Schedule(zero) withdraws the task from all lists
-    removeFromQueues (setTask s t { k with executeAt := 0, eaUser := false, owed := false }) t
+    { setTask s t { k.removed with executeAt := 0, eaUser := false, owed := false } with
+      queue := rmQueue s t, prio := rmPrio s t, sched := rmSched s t }
+  else if !k.active then
+    setTask s t { k with executeAt := tm, eaUser := true, schedHist := tm :: k.schedHist }
   else
-    addToSchedule s t { k with executeAt := tm, eaUser := true, schedHist := tm :: k.schedHist } false
+    { setTask s t { k with executeAt := tm, eaUser := true, schedHist := tm :: k.schedHist, inS := true } with
+      sched := schedWith s t tm }
 
+/-- `Cancel`. -/
 def doCancel (s : St) (t : Nat) : St :=
   let k := s.tasks t
   setTask s t { k with canceled := true, ctxDone := true }
 
-/-- The locked check section of `runWithLocking` for task `t`. -/
-def runSection (s : St) (t : Nat) (shHoldsAsap : Bool) : St × RunRes :=
+/-- Which branch the locked check section of `runWithLocking` takes for task `t`. -/
+def runResOf (s : St) (t : Nat) : RunRes :=
   let k := s.tasks t
-  if !k.inQ && !k.inP && k.active then (s, .stale) else
-  let s1 := removeFromQueues s t
-  let k1 := s1.tasks t
-  if k1.executing then (setTask s1 t { k1 with dropped := k1.owed }, .executing) else
-  if !k1.active then (s1, .inactive) else
-  (setTask s1 t { k1 with executing := true, executeAt := 0, eaUser := false, starts := k1.starts + 1,
-                          userSub := false, owed := false, dropped := false,
-                          prom := k1.prom && shHoldsAsap }, .started)
+  if !k.inQ && !k.inP && k.active then .stale
+  else if k.executing then .executing
+  else if !k.active then .inactive
+  else .started
+
+/-- The locked check section of `runWithLocking` for task `t`;
+    `keepProm`: the schedule handler is about to call `StartASAP` on this task. -/
+def runSection (s : St) (t : Nat) (keepProm : Bool) : St :=
+  let k := s.tasks t
+  match runResOf s t with
+  | .stale => s
+  | .executing =>
+    { setTask s t { k.removed with dropped := k.owed } with
+      queue := rmQueue s t, prio := rmPrio s t, sched := rmSched s t }
+  | .inactive =>
+    { setTask s t k.removed with queue := rmQueue s t, prio := rmPrio s t, sched := rmSched s t }
+  | .started =>
+    { setTask s t { k.removed with executing := true, executeAt := 0, eaUser := false, starts := k.starts + 1,
+                                   userSub := false, owed := false, dropped := false,
+                                   prom := k.prom && keepProm } with
+      queue := rmQueue s t, prio := rmPrio s t, sched := rmSched s t }
 
 def released (s : St) (w : Watcher) : Bool :=
   let k := s.tasks w.t
   decide (w.gen < k.gen) || (w.gen == k.gen && k.ctxDone)
 
-def fetchRes (s : St) (now : Nat) : FetchRes :=
+def fetchRes (s : St) : FetchRes :=
   match s.sched with
   | [] => .none
   | t :: _ =>
     let k := s.tasks t
-    if now < k.executeAt then .notDue t
+    if s.now < k.executeAt then .notDue t
     else if k.overtime then .run t else .asap t
 
 def qhHolds (s : St) (t : Nat) : Bool := s.qh == .hold t
 def shHoldsAsap (s : St) (t : Nat) : Bool := s.sh == .holdAsap t
 
-/-- One step at clock reading `now` (the clock never goes back). -/
-def step (s : St) (now : Nat) (a : Act) : Option St :=
-  if now < s.now then none else
-  let s := { s with now := now }
+def setNow (s : St) (n : Nat) : St := { s with now := n }
+def setQh (s : St) (q : QH) : St := { s with qh := q }
+def setSh (s : St) (q : SH) : St := { s with sh := q }
+
+/-- One step; `s.now` is the clock reading of the step. -/
+def stepAt (s : St) (a : Act) : Option St :=
   match a with
   | .newInert t => some (setTask s t { s.tasks t with canceled := true, maxDelay := 0 })
   | .queue t => some (doQueue s t)
@@ -250,28 +280,26 @@ def step (s : St) (now : Nat) (a : Act) : Option St :=
   | .runQ =>
     match s.qh with
     | .hold t =>
-      let (s1, r) := runSection s t (shHoldsAsap s t)
-      some { s1 with qh := if r = .started then .pre t else .idle }
+      some (setQh (runSection s t (shHoldsAsap s t)) (if runResOf s t = .started then .pre t else .idle))
     | _ => none
   | .runS =>
     match s.sh with
     | .holdRun t =>
-      let (s1, r) := runSection s t false
-      some { s1 with sh := if r = .started then .pre t else .idle }
+      some (setSh (runSection s t false) (if runResOf s t = .started then .pre t else .idle))
     | _ => none
   | .spawnQ =>
     match s.qh with
     | .pre t =>
       let k := s.tasks t
       some { setTask s t { k with sp := k.sp + 1, byQh := true, tmo := false } with
-             wg := s.wg + 1, watchers := ⟨t, k.gen, true, now⟩ :: s.watchers, qh := .idle }
+             wg := s.wg + 1, watchers := ⟨t, k.gen, true, s.now⟩ :: s.watchers, qh := .idle }
     | _ => none
   | .spawnS =>
     match s.sh with
     | .pre t =>
       let k := s.tasks t
       some { setTask s t { k with sp := k.sp + 1, byQh := false, tmo := false } with
-             wg := s.wg + 1, watchers := ⟨t, k.gen, false, now⟩ :: s.watchers, sh := .idle }
+             wg := s.wg + 1, watchers := ⟨t, k.gen, false, s.now⟩ :: s.watchers, sh := .idle }
     | _ => none
   | .fnBegin t =>
     let k := s.tasks t
@@ -284,17 +312,19 @@ def step (s : St) (now : Nat) (a : Act) : Option St :=
     if k.dn = 0 then none else
     some (setTask s t { k with dn := k.dn - 1, executing := false, gen := k.gen + 1, ctxDone := false, tmo := false })
   | .slotFree t timeout =>
-    match s.watchers.find? (fun w => w.t == t && (released s w || (timeout && decide (w.tm + maxExecutionWait ≤ now)))) with
+    match s.watchers.find? (fun w => w.t == t && (released s w || (timeout && decide (w.tm + maxExecutionWait ≤ s.now)))) with
     | none => none
     | some w =>
       if s.wg = 0 then none else
       let k := s.tasks t
-      let s1 := if timeout && !released s w && w.gen == k.gen then setTask s t { k with tmo := true } else s
-      some { s1 with watchers := s.watchers.erase w, wg := s.wg - 1,
-                     qh := if s.wg - 1 = 0 && s.qh == .waiting then .ready else s.qh }
+      let k2 : Task := if timeout && !released s w && w.gen == k.gen then { k with tmo := true } else k
+      some { setTask s t k2 with
+             watchers := s.watchers.erase w
+             wg := s.wg - 1
+             qh := if s.wg - 1 = 0 && s.qh == .waiting then .ready else s.qh }
   | .shFetch =>
     if s.sh != .idle then none else
-    match fetchRes s now with
+    match fetchRes s with
     | .none => some s
     | .notDue _ => some s
     | .run t => some { setTask s t { s.tasks t with overtime := false } with sh := .holdRun t }
@@ -303,8 +333,9 @@ def step (s : St) (now : Nat) (a : Act) : Option St :=
       some { setTask s t { k with overtime := true, prom := true, promAt := k.executeAt,
                                   subs := k.subs + 1, owed := true, dropped := false } with sh := .holdAsap t }
 
-/-- Result of the check section that `runQ` / `runS` would report in state `s` (for the driver). -/
-def runResOf (s : St) (t : Nat) : RunRes := (runSection s t false).2
+/-- One step at clock reading `now` (the clock never goes back). -/
+def step (s : St) (now : Nat) (a : Act) : Option St :=
+  if now < s.now then none else stepAt (setNow s now) a
 
 /-- States reachable from the initial state by any sequence of steps at non-decreasing clock readings. -/
 inductive Reachable : St → Prop where
